@@ -144,7 +144,10 @@ def opModule (j : Json) : Except String Json := do
     | some e, _ => e
     | none, some e => e
     | none, none => "ok"
+  let topEnums := match names j "top_enums" with | .ok v => v | .error _ => []
+  let topMsgs := match names j "top_messages" with | .ok v => v | .error _ => []
   pure (Json.mkObj [("import", Json.str imp), ("messages", jarr out), ("proto_alias", jstr p),
+                    ("manifest", jarr ((manifest topEnums topMsgs).map jstr)),
                     ("imports", jarr (imports.map fun (n, p) => jarr [jstr n, dotted p]))])
 
 /-- `{"op":"c02.rel","version":…,"self":ADDR,"ctx":ADDR}` -/
